@@ -8,6 +8,8 @@ import (
 	"reflect"
 	"sort"
 	"strings"
+	"verif/harness/keys"
+	"verif/harness/refcose"
 
 	"github.com/veraison/psatoken"
 
@@ -550,8 +552,10 @@ func wireFormatProblems(a *model.Claims, enc []byte) []string {
 	return probs
 }
 
+var c10Key = keys.New("ES256", 0)
+
 func runC10(c *mon.Ctx) {
-	c.Rule("valid claims-sets of both profiles (all optional subsets, hash sizes, 1-4 components with optional text incl. non-ASCII/control characters, P1 flag or list, P1 with/without explicit profile), built directly, through setters (components through the component's own setters), or obtained by decoding conformant wire tokens (incl. permuted key order and unknown extra keys); for wire tokens that are NOT conformant but that the validating decoder accepts all the same (C04's business), whatever ValidateAndEncodeClaimsToCBOR then emits must itself be conformant wire for the independent reader; also sets with 22..26 and 254..257 (thorough: 65535..65537) components (array-header boundaries); every returned encoding is kept and re-checked after six further encodes; the bytes of ValidateAndEncodeClaimsToCBOR are parsed by the independent reader and compared, as an order-insensitive map, with the expected wire of the abstract set: one definite map, no trailing bytes, no duplicate / foreign / missing keys, no null, right type and exact value, single nonce as bare bstr, never list+flag, component keys within {1,2,4,5,6}. distinct_nontrivial = distinct (profile, route, optional-subset, nonce size, component count) signatures")
+	c.Rule("valid claims-sets of both profiles (all optional subsets, hash sizes, 1-4 components with optional text incl. non-ASCII/control characters, P1 flag or list, P1 with/without explicit profile), built directly, through setters (components through the component's own setters), or obtained by decoding conformant wire tokens (incl. permuted key order and unknown extra keys); for wire tokens that are NOT conformant but that the validating decoder accepts all the same (C04's business), whatever ValidateAndEncodeClaimsToCBOR then emits must itself be conformant wire for the independent reader; also sets with 22..26 and 254..257 (thorough: 65535..65537) components (array-header boundaries); every returned encoding is kept and re-checked after six further encodes; the bytes of ValidateAndEncodeClaimsToCBOR are parsed by the independent reader and compared, as an order-insensitive map, with the expected wire of the abstract set: one definite map, no trailing bytes, no duplicate / foreign / missing keys, no null, right type and exact value, single nonce as bare bstr, never list+flag, component keys within {1,2,4,5,6}. Every 16th case also goes through ValidateAndSign twice on one Evidence with a setter call in between: both payloads are held to the wire format of the claims as they then are. distinct_nontrivial = distinct (profile, route, optional-subset, nonce size, component count) signatures")
 	g := model.NewGen(c.Seed*1201 + int64(c.Shard))
 	held10 := &returnedBytes{prop: "C10"}
 	// registered extensions with unusual struct layouts: what they emit must hold
@@ -693,6 +697,44 @@ func runC10(c *mon.Ctx) {
 		held10.add(c, enc, "ValidateAndEncodeClaimsToCBOR", sig, nil, nil)
 		if i < 2 {
 			c.Sample("emitted", map[string]any{"sig": sig, "hex": mon.Hex(enc)})
+		}
+		if i%16 == 5 {
+			// the payload ValidateAndSign emits is held to the same wire format - also
+			// on the SECOND signing of one Evidence after a setter changed a claim
+			// (seeded fault C10-v: the payload of the message already held is handed
+			// out again)
+			if pn, pv, fr := mon.Guard(func() {
+				ev := &psatoken.Evidence{}
+				if ev.SetClaims(x) != nil {
+					return
+				}
+				for round := 0; round < 2; round++ {
+					tok, serr := ev.ValidateAndSign(c10Key.Signer)
+					c.Eval()
+					if serr != nil {
+						c.Violation(fmt.Sprintf("C10/P%d/validate-and-sign-failed", a.P), "ValidateAndSign failed on a valid claims-set: "+serr.Error(), map[string]any{"sig": sig, "round": round})
+						return
+					}
+					env, perr := refcose.Parse(tok)
+					if perr != nil {
+						c.Violation(fmt.Sprintf("C10/P%d/signed-token-unreadable", a.P), "independent reader cannot parse the signed token: "+perr.Error(), map[string]any{"sig": sig})
+						return
+					}
+					if probs := wireFormatProblems(a, env.Payload); len(probs) > 0 {
+						c.Violation(fmt.Sprintf("C10/P%d/signed-payload/round-%d/%s", a.P, round, probs[0]), fmt.Sprintf("payload of ValidateAndSign (signing #%d on this Evidence) deviates from the wire format of the claims as they are: %v", round+1, probs),
+							map[string]any{"sig": sig, "payload_hex": mon.Hex(env.Payload), "expected_diag": a.WireCBOR().Diag()})
+						return
+					}
+					c.Count("signed-payloads-checked")
+					cid := int32(g.R.Uint32())
+					if x.SetClientID(cid) != nil {
+						return
+					}
+					a.ClientID = &cid
+				}
+			}); pn {
+				c.Violation("C10/panic/"+mon.PanicKey(fr), "panic while signing", map[string]any{"panic": pv, "frame": fr, "sig": sig})
+			}
 		}
 	}
 	c.Floor("component-count-boundary-cases", 30)
